@@ -972,11 +972,10 @@ def read_index_dict_with_version(
         if len(signature) < 4:
             break
 
-        # Check if it's a valid extension signature (4 uppercase letters)
-        if not all(65 <= b <= 90 for b in signature):
-            # Not an extension, seek back
-            f.seek(-4, 1)
-            break
+        # An extension whose signature starts with 'A'..'Z' is optional and
+        # can be carried along; anything else must be understood.
+        if not (65 <= signature[0] <= 90) and signature != SDIR_EXTENSION:
+            raise UnsupportedIndexFormat(version)
 
         # Read extension size
         size_data = f.read(4)
@@ -1203,7 +1202,8 @@ class Index:
             for ext in self._extensions:
                 # Skip extensions that have empty data
                 ext_data = ext.to_bytes()
-                if ext_data:
+                # (the sparse directory extension is a marker without payload)
+                if ext_data or isinstance(ext, SparseDirExtension):
                     meaningful_extensions.append(ext)
 
             if self._skip_hash:
